@@ -1,6 +1,6 @@
 (* C18/Properties.v — property theorems only: statement, `exact`, Print Assumptions. *)
 From Coq Require Import ZArith List Bool Permutation.
-From C18 Require Import Model Generated Spec Proofs Confs.
+From C18 Require Import Model Generated Spec Proofs Unbounded Confs.
 Import ListNotations.
 Open Scope Z_scope.
 
@@ -13,6 +13,16 @@ Theorem C18_checker_decides_linearizability : forall init h final,
   linearizable init h final = true <-> lin_spec init h final.
 Proof. exact linearizable_iff. Qed.
 Print Assumptions C18_checker_decides_linearizability.
+
+(* "Every call returns", with NO bound: for any flags, any configuration (any number of client threads,
+   operations per thread, files, contents, max_memory) and any schedule, every step strictly decreases
+   `weight` (every run is finite, at most weight(init) steps), and a reachable state in which no thread can
+   move is quiescent: every client has returned from every call and every worker task has completed. *)
+Theorem C18_every_call_returns : forall fl cf s, reach fl cf s ->
+  (forall t s', step fl (cfg_max cf) s t = Some s' -> (weight s' < weight s)%nat) /\
+  (enabled fl (cfg_max cf) s = [] -> quiescent s = true).
+Proof. exact every_call_returns. Qed.
+Print Assumptions C18_every_call_returns.
 
 (* Closed finite sets of global states are invariants of ALL schedules of ANY length. *)
 Theorem C18_closed_set_invariant : forall fl cf P st, closed fl cf P st = true ->
